@@ -474,6 +474,20 @@ int main(int argc, char **argv) {
     for (size_t k = 0; k < ids.size(); k++) if (ids[k] >= 0 && ids[k] < (int)qs.size() && (qs[ids[k]] == 0 || dts[k] != DT_FLOAT32) && !exact(out.keyframes(ids[k]), data[k], ncs[k], dts[k]))
       o.fail("C20 track " + S(ids[k]) + " (no quantization requested for its id) is not bit-exact: " + gt + (ts_first ? " timestamps-first" : " keyframes-first"));
   }
+  // long integer tracks with large alphabets of corrections (1500 .. 13000 distinct symbols: the raw scheme's 11..14-bit coders, chosen
+  // by speed): implementation only (the extracted model is too slow on tables of this size), every speed class
+  if (na > 0) for (int V : {800, 1600, 3200, 6400}) for (int speed : {0, 3, 4, 7, 10}) {
+    KeyframeAnimation anim; const int frames = thorough ? 9000 : 4000, nc = 4; std::vector<float> ts(frames); for (int f = 0; f < frames; f++) ts[f] = (float)f * 0.04f; anim.SetTimestamps(ts);
+    std::vector<int32_t> d((size_t)frames * nc); for (auto &x : d) x = (int32_t)r.below(V); const int id = anim.AddKeyframes(DT_INT32, nc, d);
+    EncoderOptions opt = EncoderOptions::CreateDefaultOptions(); opt.SetSpeed(speed, speed); EncoderBuffer eb; KeyframeAnimationEncoder enc; Status s = enc.EncodeKeyframeAnimation(anim, opt, &eb);
+    const std::string tag = "long int32 track, values below " + S(V) + ", " + S(frames) + " frames x " + S(nc) + " components, speed " + S(speed);
+    if (!s.ok()) { o.fail(std::string("C20 animation encode failed: ") + s.error_msg() + " " + tag); continue; }
+    DecoderBuffer db; db.Init(eb.data(), eb.size()); KeyframeAnimation out; KeyframeAnimationDecoder dec; DecoderOptions dopt; Status ds = dec.Decode(dopt, &db, &out);
+    if (!ds.ok()) { o.fail(std::string("C20 animation encode ok but decode failed (") + ds.error_msg() + "): " + tag); continue; }
+    const PointAttribute *kf = out.keyframes(id); bool same = kf && kf->num_components() == nc && kf->data_type() == DT_INT32 && out.num_frames() == frames && db.remaining_size() == 0;
+    std::vector<int32_t> v(nc); for (int f = 0; same && f < frames; f++) { kf->GetMappedValue(PointIndex(f), v.data()); if (memcmp(v.data(), &d[(size_t)f * nc], sizeof(int32_t) * nc) != 0) same = false; }
+    if (!same) o.fail("C20 long integer track not reproduced bit-exactly: " + tag);
+  }
   fprintf(stderr, "h_seq: %ld cases (%ld encode failures, %ld decode cases), %ld direct failures\n", o.cases, enc_fail, dec_cases, o.fails);
   return 0;
 }
